@@ -625,5 +625,92 @@ class SourceListingOrder(Stream):
             yield dict(case, sibling=False)
 
 
+class SourceHistory(Stream):
+    """"what else was compiled earlier in the same process", for source projects: two projects whose setup scripts import
+    a helper module of the same name (each from its own directory) and take their version from it; the first one cannot
+    be analysed in-process (its setup() call is refused, the egg_info fall-back answers).  The second project compiled
+    alone and compiled after the first must give the same output"""
+    name = "source-history"
+    quick_n = 12
+    thorough_n = 600
+    batch = 4
+    parallel_quick = 4
+
+    def setup(self):
+        self.tmp = tempfile.mkdtemp(prefix="rvc07h")
+
+    def teardown(self):
+        shutil.rmtree(getattr(self, "tmp", ""), ignore_errors=True)
+
+    def generate(self, rng):
+        return {"helper": rng.choice(["_about", "_meta", "version_info"]) + "_%d" % rng.randrange(10 ** 6),
+                "first_fails": rng.choice(["use_pyscaffold", "pbr", "use_pyscaffold", "none"]),
+                "first_version": "1.%d" % rng.randint(0, 9), "second_version": "2.%d" % rng.randint(0, 9),
+                "helper_is_package": rng.random() < 0.3}
+
+    def _project(self, path, name, version, case, fails):
+        os.makedirs(path, exist_ok=True)
+        h = case["helper"]
+        if case["helper_is_package"]:
+            os.makedirs(os.path.join(path, h), exist_ok=True)
+            with open(os.path.join(path, h, "__init__.py"), "w") as f:
+                f.write("VERSION = %r\n" % version)
+        else:
+            with open(os.path.join(path, h + ".py"), "w") as f:
+                f.write("VERSION = %r\n" % version)
+        extra = {"use_pyscaffold": ", use_pyscaffold=True", "pbr": ", pbr=True"}.get(fails, "")
+        with open(os.path.join(path, "setup.py"), "w") as f:
+            f.write("import os, sys\nsys.path.insert(0, os.path.dirname(os.path.abspath(__file__)))\nfrom %s import VERSION\n"
+                    "from setuptools import setup\nsetup(name=%r, version=VERSION%s)\n" % (h, name, extra))
+
+    def impl(self, case):
+        import functools
+        import req_compile.cmdline as C
+        from rv.core import digest
+        d = os.path.join(self.tmp, digest(case))
+        shutil.rmtree(d, ignore_errors=True)
+        self._project(os.path.join(d, "first", "alpha"), "alpha", case["first_version"], case, case["first_fails"])
+        self._project(os.path.join(d, "second", "beta"), "beta", case["second_version"], case, "none")
+
+        def compile_one(tree, name):
+            GL.reset_caches()
+            out, err = io.StringIO(), io.StringIO()
+            old = os.getcwd()
+            os.chdir(d)
+            with open(os.path.join(d, "in-%s.txt" % name), "w") as f:
+                f.write(name + "\n")
+            orig_write = C.write_requirements_file
+            C.write_requirements_file = functools.partial(orig_write, write_to=out)
+            code = 0
+            try:
+                with contextlib.redirect_stdout(out), contextlib.redirect_stderr(err):
+                    try:
+                        C.compile_main(["in-%s.txt" % name, "--source", tree, "--no-index"])
+                    except SystemExit as ex:
+                        code = ex.code if isinstance(ex.code, int) else 1
+                    except BaseException as ex:
+                        code = "raise:" + type(ex).__name__
+            finally:
+                C.write_requirements_file = orig_write
+                os.chdir(old)
+            return {"code": code, "stdout": out.getvalue()}
+        res = {"alone": compile_one("second", "beta")}
+        res["first"] = compile_one("first", "alpha")
+        res["after"] = compile_one("second", "beta")
+        res["helper_left"] = case["helper"] in sys.modules
+        sys.modules.pop(case["helper"], None)
+        shutil.rmtree(d, ignore_errors=True)
+        return res
+
+    def flags(self, case, r):
+        return ["first:" + case["first_fails"], "first-exit:%s" % r["first"]["code"], "second-exit:%s" % r["alone"]["code"]] + \
+            (["helper-is-a-package"] if case["helper_is_package"] else [])
+
+    def oracle(self, case, r):
+        if (r["alone"]["code"], r["alone"]["stdout"]) != (r["after"]["code"], r["after"]["stdout"]):
+            return [("C07/output-depends-on-earlier-source-project", {"alone": r["alone"]["stdout"][-200:], "after": r["after"]["stdout"][-200:], "first": case["first_fails"]})]
+        return []
+
+
 def streams():
-    return [SortKeys(), CliVariants(), SolvePermuted(), PageOrder(), SourceListingOrder()]
+    return [SortKeys(), CliVariants(), SolvePermuted(), PageOrder(), SourceListingOrder(), SourceHistory()]
